@@ -1,5 +1,7 @@
-import Rpft.Str
 import Rpft.Cell
+import Rpft.Drv.Cell
+import Rpft.Drv.Json
+import Rpft.Gen.Tables
 import Rpft.Lemmas.Cell
 import Rpft.Props.C08
-import Rpft.Gen.Tables
+import Rpft.Str
